@@ -107,7 +107,13 @@ func (call *CallStm) checkMappings(global *Ast, pipeline *Pipeline) error {
 	if err == nil && call.Mapping != nil {
 		switch call.Mapping.(type) {
 		case *placeholderMapSource, *placeholderArrayMapSource, *placeholderMapMapSource:
-			panic(call.Mapping)
+			// None of the split bindings determined the map source, for
+			// example because they refer to something which does not
+			// resolve.  That is an error in the source, not in the compiler.
+			return global.err(call,
+				"MapCallError: could not determine the type of "+
+					"collection which map call %s is split over",
+				call.Id)
 		}
 	}
 	// Check all sources are consistent.  checkBindingMap will have merged them.
